@@ -29,4 +29,5 @@ alarm_filter = ep.alarm_filter
 def nontrivial(stream, case, out):
     t = ec.trace_of(out)
     return "run-err" in t or "nx!" in t or "ns!" in t
+
 valid_case = ep.valid_case
